@@ -69,8 +69,8 @@ class Clamp:
     requires = dict(ordered="lower_bound <= upper_bound")
     ensures = dict(
         # every returned option is usable, or it is the zero request handed back unchanged
-        components_usable="all(r is None or usable(r, lower_bound, upper_bound, exclusion_bounds)"
-                          " or (r == value and value == zero()) for r in result)",
+        components_usable="all(r is None or usable(r, lower_bound, upper_bound, exclusion_bounds) for r in result)"
+                          " or (value == zero() and result[0] == value and result[1] == value)",
         identity_iff_usable="(result[0] == value and result[1] == value) == ("
                             "usable(value, lower_bound, upper_bound, exclusion_bounds)"
                             " or (value == zero() and lower_bound <= value <= upper_bound"
@@ -83,6 +83,11 @@ class Clamp:
         two_sided="implies(result[0] is not None and result[1] is not None and result[0] != result[1],"
                   " result[0] == exclusion_bounds.lower and result[1] == exclusion_bounds.upper"
                   " and result[0] < value < result[1])",
+        two_sided_iff="(result[0] is not None and result[1] is not None and result[0] != result[1]) == ("
+                      "in_zone(value, exclusion_bounds) and value != zero() and lower_bound <= value <= upper_bound"
+                      " and not in_zone(lower_bound, exclusion_bounds) and not in_zone(upper_bound, exclusion_bounds))",
+        both_equal_means_identity="implies(result[0] is not None and result[1] is not None and result[0] == result[1],"
+                                  " result[0] == value)",
         two_sided_nearest="implies(result[0] is not None and result[1] is not None and result[0] != result[1]"
                           " and usable(x, lower_bound, upper_bound, exclusion_bounds),"
                           " x <= result[0] or x >= result[1])",
